@@ -22,8 +22,9 @@ def _lean_str(s):
 
 
 class ConfigTranslator:
-    def __init__(self, value_name, item_name=None):
+    def __init__(self, value_name, item_name=None, tables=None):
         self.value, self.item = value_name, item_name
+        self.tables = tables or {}
         self.locals = {}      # local name -> CExp it was bound to (`v = value.lower()`)
         self.notes = []
 
@@ -58,21 +59,67 @@ class ConfigTranslator:
         self.notes.append("condition: " + src[:100])
         return ".unknown"
 
-    def seq(self, stmts):
+    def seq(self, stmts, tail=True):
+        """`tail`: nothing of the function runs after this block. An assignment of a switch is modelled as the LAST thing
+        on its path (`.setDisable` returns): it must be in tail position or be followed by a bare `return`."""
+        stmts = self.unroll([st for st in stmts if not (isinstance(st, ast.Expr) and isinstance(st.value, ast.Constant))])
         out = []
-        for st in stmts:
-            if isinstance(st, ast.Expr) and isinstance(st.value, ast.Constant):
-                continue
-            out.append(self.stmt(st))
+        i = 0
+        while i < len(stmts):
+            st = stmts[i]
+            last = i == len(stmts) - 1
+            nxt_is_return = not last and isinstance(stmts[i + 1], ast.Return) and stmts[i + 1].value is None
+            x = self.stmt(st, tail=(tail and last))
+            if x in (".setDisable", ".setRemove") and not (tail and last):
+                if nxt_is_return:
+                    i += 1          # the `return` that follows is what the model already does
+                else:
+                    self.notes.append("a switch is assigned and the method goes on")
+                    x = ".unknown"
+            out.append(x)
+            i += 1
         out = [x for x in out if x != ".skip"] or [".skip"]
         r = out[-1]
         for x in reversed(out[:-1]):
             r = f"(.seq {x} {r})"
         return r
 
-    def stmt(self, st):
+    def unroll(self, stmts):
+        """`for a, b in TABLE:` over a module-level tuple / list of pairs of string constants: written out, the loop
+        variables replaced by the constants (the body may `return` / `raise`; `break` / `continue` are not handled)"""
+        out = []
+        for st in stmts:
+            table = self.tables.get(ast.unparse(st.iter)) if isinstance(st, ast.For) else None
+            if table is not None and not st.orelse and isinstance(st.target, ast.Tuple) and all(isinstance(e, ast.Name) for e in st.target.elts) \
+                    and all(len(row) == len(st.target.elts) for row in table) and not any(isinstance(n, (ast.Break, ast.Continue)) for n in ast.walk(st)):
+                names = [e.id for e in st.target.elts]
+                for row in table:
+                    env = dict(zip(names, row))
+
+                    class Sub(ast.NodeTransformer):
+                        def visit_Name(self, node, env=env):
+                            if isinstance(node.ctx, ast.Load) and node.id in env:
+                                return ast.copy_location(ast.Constant(env[node.id]), node)
+                            return node
+
+                    import copy
+
+                    out.extend(ast.fix_missing_locations(Sub().visit(copy.deepcopy(b))) for b in st.body)
+            else:
+                out.append(st)
+        return out
+
+    def stmt(self, st, tail=True):
         if isinstance(st, ast.If):
-            return f"(.ite {self.cond(st.test)} {self.seq(st.body)} {self.seq(st.orelse)})"
+            return f"(.ite {self.cond(st.test)} {self.seq(st.body, tail)} {self.seq(st.orelse, tail)})"
+        # `setattr(self, "<switch>", _maybestr2bool(value, msg))`
+        if isinstance(st, ast.Expr) and isinstance(st.value, ast.Call) and _u(st.value.func) == "setattr" and len(st.value.args) == 3 and not st.value.keywords \
+                and _u(st.value.args[0]) == "self" and isinstance(st.value.args[1], ast.Constant) and isinstance(st.value.args[2], ast.Call) \
+                and _u(st.value.args[2].func) == "_maybestr2bool" and len(st.value.args[2].args) == 2 and _u(st.value.args[2].args[0]) == self.value and not st.value.args[2].keywords:
+            if st.value.args[1].value == "jaxtyping_disable":
+                return ".setDisable"
+            if st.value.args[1].value == "jaxtyping_remove_typechecker_stack":
+                return ".setRemove"
         if isinstance(st, ast.Return) and st.value is not None:
             if isinstance(st.value, ast.Name) and st.value.id == self.value:
                 return ".retValue"
@@ -106,10 +153,20 @@ def run():
         tree = ast.parse(fh.read())
     notes = []
     parse_code = update_code = ".unknown"
+    from inline import inline_helpers
+
+    # module-level tables of tuples of string constants, bound once
+    tables = {}
+    for n in tree.body:
+        if isinstance(n, ast.Assign) and len(n.targets) == 1 and isinstance(n.targets[0], ast.Name) and isinstance(n.value, (ast.Tuple, ast.List)) and n.value.elts \
+                and all(isinstance(r, ast.Tuple) and r.elts and all(isinstance(c, ast.Constant) and isinstance(c.value, str) for c in r.elts) for r in n.value.elts):
+            nm = n.targets[0].id
+            if sum(1 for m in ast.walk(tree) if isinstance(m, ast.Name) and m.id == nm and isinstance(m.ctx, ast.Store)) == 1:
+                tables[nm] = [[c.value for c in r.elts] for r in n.value.elts]
     fn = next((n for n in tree.body if isinstance(n, ast.FunctionDef) and n.name == "_maybestr2bool"), None)
     if fn is not None and len(fn.args.args) == 2 and not fn.decorator_list:
         t = ConfigTranslator(fn.args.args[0].arg)
-        parse_code = t.seq(fn.body)
+        parse_code = t.seq(inline_helpers(fn, tree).body)
         notes += t.notes
     else:
         notes.append("_maybestr2bool not found / unexpected parameters")
@@ -117,8 +174,8 @@ def run():
     up = next((m for m in cls.body if isinstance(m, ast.FunctionDef) and m.name == "update"), None) if cls is not None else None
     plain_base = cls is not None and not cls.bases and not cls.keywords and not cls.decorator_list
     if up is not None and [a.arg for a in up.args.args][:1] == ["self"] and len(up.args.args) == 3 and not up.decorator_list and plain_base:
-        t = ConfigTranslator(up.args.args[2].arg, up.args.args[1].arg)
-        update_code = t.seq(up.body)
+        t = ConfigTranslator(up.args.args[2].arg, up.args.args[1].arg, tables)
+        update_code = t.seq(inline_helpers(up, tree, cls, exclude=("_maybestr2bool",)).body)
         notes += t.notes
     else:
         notes.append("_JaxtypingConfig.update not found / unexpected parameters / the class has bases or decorators")
